@@ -62,7 +62,7 @@ Qed.
 
 Lemma tokens_trim s : tokens (trim_spaces s) = tokens s.
 Proof.
-  unfold trim_spaces.
+  unfold trim_spaces. rewrite !frev_rev.
   destruct (drop_spaces_split (rev (drop_spaces s))) as (sp & H1 & H2).
   assert (Hd : drop_spaces s = rev (drop_spaces (rev (drop_spaces s))) ++ rev sp).
   { rewrite <- rev_app_distr, <- H1, rev_involutive. reflexivity. }
@@ -73,7 +73,7 @@ Qed.
 
 Lemma trim_nls s : nls (trim_spaces s).
 Proof.
-  unfold trim_spaces.
+  unfold trim_spaces. rewrite !frev_rev.
   destruct (drop_spaces_split (rev (drop_spaces s))) as (sp & H1 & H2).
   pose proof (drop_spaces_nls s) as Hn.
   assert (Hd : drop_spaces s = rev (drop_spaces (rev (drop_spaces s))) ++ rev sp).
